@@ -4,6 +4,7 @@ C18 — EventCollection equivalence is a true semantic equivalence relation.
 import EdxmlModel
 import EdxmlProps.Lemmas.Stream
 import EdxmlProps.C05
+import EdxmlProps.C09
 namespace EdxmlProps.C18
 open Edxml EdxmlProps.C04 EdxmlProps.C05
 
@@ -310,6 +311,40 @@ theorem equiv_perm (hn : (specs.map (·.name)).Nodup) (a b ra rb : List Event) (
         have hof' := hof h; rw [hga] at hof'
         have hsame' := hsame h; rw [hga] at hsame'
         exact merge_perm_view specs vp hn _ _ hg x y hx' hy' hof' hsame'
+
+/-! ### with the ontology comparison of C09 in place of an input bit -/
+
+/-- the outcome of `a.is_equivalent_of(b)` when the collections hold the ontologies `A` and `B`: the
+ontology comparison comes first and may itself be refused (definitions in conflict) -/
+inductive EquivOutcome
+  | ontologyConflict
+  | mergeConflict (e : MergeErr)
+  | verdict (b : Bool)
+
+def equivFull (key : Event → Bytes) (specs : List PropSpec) (vp : Option String) (A B : Edxml.Ont.OntologyDef)
+    (a b : List Event) : EquivOutcome :=
+  match Edxml.Ont.ontEq A B with
+  | .conflict => .ontologyConflict
+  | .different => .verdict false
+  | .equal => match equivBy key specs vp true a b with
+    | .ok v => .verdict v
+    | .error e => .mergeConflict e
+
+include hks in
+/-- **C18 with C09: equivalence is symmetric, the ontologies included**: for well-formed ontologies
+and collections that resolve, `a.is_equivalent_of(b)` and `b.is_equivalent_of(a)` have the same
+outcome — the same verdict, or the ontology conflict from both sides -/
+theorem equivFull_symm (A B : Edxml.Ont.OntologyDef) (hA : EdxmlProps.C09.OntWF A) (hB : EdxmlProps.C09.OntWF B)
+    (a b ra rb : List Event) (ha : resolveBy key specs vp a = .ok ra) (hb : resolveBy key specs vp b = .ok rb) :
+    equivFull key specs vp A B a b = equivFull key specs vp B A b a := by
+  unfold equivFull
+  rw [EdxmlProps.C09.ontEq_symm A B hA hB, equiv_symm key specs vp hks true a b ra rb ha hb]
+
+/-- collections whose ontologies differ are never equivalent, whatever events they hold -/
+theorem equivFull_false_of_ontology (A B : Edxml.Ont.OntologyDef) (a b : List Event)
+    (h : Edxml.Ont.ontEq A B = .different) : equivFull key specs vp A B a b = .verdict false := by
+  unfold equivFull
+  rw [h]
 
 /-! ### Non-vacuity -/
 
